@@ -30,10 +30,14 @@ def comparable(v):
 
 
 class PrintTimeout(BaseException):
-    """a single pformat call ran longer than PRINT_TIMEOUT seconds (a check must end on code that does not)"""
+    """a single pformat call ran longer than print_timeout() seconds (a check must end on code that does not)"""
 
 
-PRINT_TIMEOUT = 90
+def print_timeout():
+    import os
+    return 40 if os.environ.get('VERIF_RUNNING_TIER', 'quick') == 'quick' else 200
+
+
 MAX_TIMEOUTS = 3          # after this many calls that did not return, a run stops printing further cases
 TIMEOUTS = [0]
 
@@ -52,7 +56,7 @@ def impl_pformat(v, cfg):
         warnings.simplefilter('always')
         if use_alarm:
             old = signal.signal(signal.SIGALRM, _alarm)
-            signal.setitimer(signal.ITIMER_REAL, PRINT_TIMEOUT)
+            signal.setitimer(signal.ITIMER_REAL, print_timeout())
         try:
             out = pformat(v, **cfg)
         except RecursionError:
